@@ -3,6 +3,7 @@ package main
 import (
 	"fmt"
 	"os"
+	"strings"
 	"path/filepath"
 	"sort"
 	"sync"
@@ -19,6 +20,9 @@ func selftest(scratch, tier string, seed int64, workers int) int {
 	}
 	props := make([]string, 0, len(propMeta))
 	for p := range propMeta {
+		if only := os.Getenv("SELFTEST_PROPS"); only != "" && !strings.Contains(","+only+",", ","+p+",") {
+			continue
+		}
 		props = append(props, p)
 	}
 	sort.Strings(props)
